@@ -706,6 +706,28 @@ example : (runCalls { a1 := true } {} [⟨.transact, false, envOk, { begin := tr
     ⟨.transact, true, envOk, { begin := true, commit := true, rollback := true }, { stmts := [], fin := .err .userOk }⟩]).map (·.mark)
     = [some true, some false] := by decide
 
+/-- **A statement's error reaches the body, and a body that returns it stops there**: a nested Transact / RawDB
+of a session connection (never reaches the driver), a QueryRow that finds no row, a driver fault (also one that
+wraps driver.ErrBadConn, also a refused Prepare) and any statement made under a done context yield an error; if
+the body returns it, that error is the body's outcome, only the driver calls up to this statement were made and
+nothing after it runs — whatever follows in the body. -/
+theorem statement_errors_reach_the_body (c : Option Nat) (dl : Bool) (i : Nat) (s : Stmt) (rest : List Stmt) :
+    ((s.kind = .nest ∨ s.kind = .rowq ∨ s.fails = true ∨ cancelled c i = true) → s.failingAt c i = true) ∧
+    (s.kind = .nest → stmtEvAt c i s = []) ∧
+    (s.failingAt c i = true → s.prop = true →
+      runStmts c dl i (s :: rest) = (stmtEvAt c i s, some (stmtSrcAt c dl i s))) ∧
+    (s.failingAt c i = false → (runStmts c dl i (s :: rest)).2 = (runStmts c dl (i + 1) rest).2) := by
+  refine ⟨?_, ?_, ?_, ?_⟩
+  · intro h
+    unfold Stmt.failingAt
+    rcases h with h | h | h | h <;> simp [h]
+  · intro h; simp [stmtEvAt, h]
+  · intro h1 h2; simp [runStmts, h1, h2]
+  · intro h; simp [runStmts, h]
+
+example : (runBody { stmts := [⟨.exec, false, true⟩, ⟨.exec, true, true⟩, ⟨.query, false, true⟩], fin := .ok }) =
+    ([.exec 0 true, .exec 1 false], .err (Err.of (.stmt 1))) := by decide
+
 /-! ### round 5 finding: `WithAcceptable(f), WithAcceptable(nil)` -/
 
 /-- **Finding (round 5).**  Options `WithAcceptable(f), WithAcceptable(nil)`: the pinned option closure installs
